@@ -83,7 +83,29 @@ Decode == /\ l <= Len(Trace) /\ Ev.op = "D"
                   IN Allowed(Ev.kind, Ev.in, r, Strict)
           /\ UNCHANGED <<wire, pend>> /\ l' = l + 1
 
-Next == Reset \/ Write \/ Read \/ Marshal \/ Decode
+\* A byte string too long to be logged byte by byte (beyond the 3-byte length prefix: 2^21 and up): only the
+\* numbers are recorded.  The predicted size, the size written by Marshal and by the ObjectsWriter are all
+\* (number of base-128 digits of len) + len, a buffer one byte shorter is refused, decoding consumes exactly that
+\* many bytes and gives the original back (rt), and an in-place re-encode of the decoded (aliasing) value further
+\* to the front of the same buffer still decodes to the original (shift).
+RECURSIVE Digits128(_)
+Digits128(n) == IF n < 128 THEN 1 ELSE 1 + Digits128(n \div 128)
+Big == /\ l <= Len(Trace) /\ Ev.op = "Big"
+       /\ LET want == Digits128(Ev.len) + Ev.len
+          IN /\ Strict => (Ev.psize = want /\ Ev.n = want /\ Ev.nw = want /\ Ev.consumed = want)
+             /\ Strict => (Ev.rt /\ Ev.shortfails /\ Ev.shift)
+             /\ ~Ev.panic
+       /\ l' = l + 1 /\ UNCHANGED <<wire, pend>>
+
+\* A very long input (megabytes of continuation bytes): totality only - no panic, on success 0 < n <= len,
+\* on failure n = 0.  (If the decoder takes the whole process down instead, there is no event at all: the check
+\* reports the death of the driver.)
+Long == /\ l <= Len(Trace) /\ Ev.op = "Long"
+        /\ ~Ev.panic
+        /\ IF Ev.ok THEN Ev.n > 0 /\ Ev.n <= Ev.len ELSE Ev.n = 0
+        /\ l' = l + 1 /\ UNCHANGED <<wire, pend>>
+
+Next == Reset \/ Write \/ Read \/ Marshal \/ Decode \/ Big \/ Long
 Spec == Init /\ [][Next]_<<wire, pend, l>>
 Accepted == AcceptByDiameter
 =============================================================================
